@@ -380,6 +380,13 @@ func (x *fx) contractCall(fc *FuncContract, key string, names []string, ptypes [
 		}
 	}()
 	pre := x.cur
+	if fc.MayPanic {
+		if fnRecovers(x.fn) {
+			e.trusted["a panic of "+key+" in "+x.fn.Name()+" is caught by that function's own deferred recover (the recover itself is not modelled)"] = true
+		} else {
+			x.safety("panic", "call:"+shortKey(key), "false", ci.Pos())
+		}
+	}
 	if e.wfree && !fc.Pure {
 		wc := fc.WritesClause(e.profile)
 		if wc == nil {
@@ -546,6 +553,22 @@ func (x *fx) contractCall(fc *FuncContract, key string, names []string, ptypes [
 		}
 	}
 	defer logSnap()
+	// the callee's key functions (Skolem functions of its existential clauses) are fresh symbols at every call site
+	if target := e.P.Funcs[key]; target != nil && fc.Kind == "func" {
+		for ord, lc := range fc.Loops {
+			for _, kf := range lc.KeyFns {
+				kt := loopRangeKey(target, ord)
+				if kt == nil {
+					continue
+				}
+				sym := e.declareFun("gf:"+kf.Name+"@call", e.S.sortOf(kt), "Int")
+				if post.fnAlias == nil {
+					post.fnAlias = map[string]string{}
+				}
+				post.fnAlias[kf.Name] = sym
+			}
+		}
+	}
 	for _, c := range fc.Ensures {
 		if c.Profile != "" && c.Profile != e.profile {
 			continue
@@ -809,6 +832,38 @@ func (x *fx) producedBy(v ssa.Value, producer string, depth int) bool {
 			}
 		}
 		return len(t.Edges) > 0
+	}
+	return false
+}
+
+// fnRecovers: fn defers a function literal that calls recover().
+func fnRecovers(fn *ssa.Function) bool {
+	for _, b := range fn.Blocks {
+		for _, in := range b.Instrs {
+			d, ok := in.(*ssa.Defer)
+			if !ok {
+				continue
+			}
+			var lit *ssa.Function
+			switch v := d.Call.Value.(type) {
+			case *ssa.MakeClosure:
+				lit, _ = v.Fn.(*ssa.Function)
+			case *ssa.Function:
+				lit = v
+			}
+			if lit == nil {
+				continue
+			}
+			for _, lb := range lit.Blocks {
+				for _, li := range lb.Instrs {
+					if c, ok := li.(*ssa.Call); ok {
+						if bi, ok := c.Call.Value.(*ssa.Builtin); ok && bi.Name() == "recover" {
+							return true
+						}
+					}
+				}
+			}
+		}
 	}
 	return false
 }
